@@ -265,7 +265,9 @@ def run(ctx):
     # ---- R4 ---------------------------------------------------------------------------
     lof = prog.fn(J + "loadObjectField")
     ok = any(is_call(c) and callee(c) == J + "loadString" for c in lof.walk())
-    R.ob("C24-R4", ok, lof.q, "key:loadString", "%s:%d" % (lof.relfile, lof.d["line"]), "quoted keys are decoded by loadString")
+    key_decoded = ok
+    R.ob("C24-R4", ok, lof.q, "key:loadString", "%s:%d" % (lof.relfile, lof.d["line"]), "quoted keys are decoded by loadString" if ok else
+         "a quoted key is taken from the input without the string decoder: dump() escapes keys (dumpEscapedString), so a key containing a quote, a backslash or a control character comes back in its escaped spelling - parse(dump(j)) != j")
 
     # ---- R5: primitive::toString prints `source` when it is set; load() sets it to the literal's spelling -------------------------------------
     pr = ctx.program(["src/types/primitive.cpp"], thorough_all=False)
@@ -327,6 +329,8 @@ def run(ctx):
     lof = prog.fn(J + "loadObjectField")
     lcfg = lof.cfg
     quoted = [c for c in lof.walk() if is_call(c) and callee(c) == J + "loadString"]
+    if len(quoted) != 1 and not key_decoded:
+        return          # reported by C24-R4: there is no decoded key to follow
     if len(quoted) != 1:
         raise AnalysisBroken("loadObjectField: the quoted-key branch was not found")
     sizetests = [n for n in lof.walk() if is_call(n) and callee(n).split("::")[-1] in ("size", "empty", "length") and "std::basic_string" in callee(n) and
